@@ -71,6 +71,14 @@ Record handler := { v_priv : bytes; v_pub : bytes }.
 
 Inductive proto := MRP | Companion | AirPlay.
 
+(* Two facts about each protocol's auth module that differ between the modules and over time;
+   the translator reads them off the source on every run (coq/C06/Gen.v, [cfg]) and every theorem
+   is proved for BOTH values of each:
+     chk_error  _get_pairing_data raises AuthenticationError when the TLV has an Error item
+     chk_m4     verify_credentials passes the answer to its LAST message through
+                _get_pairing_data as well (otherwise that answer is ignored) *)
+Record pcfg := { chk_error : bool; chk_m4 : bool }.
+
 Section Verify.
   (* X25519PublicKey.from_public_bytes(peer) then own.exchange(..): None = ValueError
      (wrong length, or all-zero shared secret) *)
@@ -122,32 +130,28 @@ Section Verify.
       end
     end.
 
-  (* _get_pairing_data of the three auth modules, applied to the pairing-data bytes of the
-     accessory's answer.  Companion: `if not pairing_data` first; AirPlay: no Error check. *)
-  Definition pairing_data (p : proto) (pd : bytes) : tlv + exn :=
+  (* _get_pairing_data of the three auth modules, applied to the pairing-data bytes of an
+     answer.  Companion: `if not pairing_data` comes first. *)
+  Definition pairing_data (k : pcfg) (p : proto) (pd : bytes) : tlv + exn :=
     match p, pd with
     | Companion, [] => inr EAuthentication
     | _, _ =>
       match read_tlv pd with
       | TIndexError => inr EIndexError
       | TOutOfFuel => inr EOther
-      | TOk t =>
-        match p with
-        | AirPlay => inl t
-        | _ => if has_tag T_Error t then inr EAuthentication else inl t
-        end
+      | TOk t => if chk_error k && has_tag T_Error t then inr EAuthentication else inl t
       end
     end.
 
   (* verify_credentials(): f1 / f3 = what the transport does to the first / second exchange
-     (None: an answer arrives; Some e: send_and_receive / exchange_auth / http.post raises e).
-     The content of the second answer is ignored by the code ("TODO: check status code"). *)
-  Definition verify_credentials (p : proto) (h : handler) (c : creds)
-             (f1 : option exn) (pd : bytes) (f3 : option exn) : outcome :=
+     (None: an answer arrives; Some e: send_and_receive / exchange_auth / http.post raises e);
+     pd / pd4 = pairing data of the answers to the first / last message. *)
+  Definition verify_credentials (k : pcfg) (p : proto) (h : handler) (c : creds)
+             (f1 : option exn) (pd : bytes) (f3 : option exn) (pd4 : bytes) : outcome :=
     match f1 with
     | Some e => Raises e
     | None =>
-      match pairing_data p pd with
+      match pairing_data k p pd with
       | inr e => Raises e
       | inl t =>
         match get T_PublicKey t with
@@ -161,7 +165,13 @@ Section Verify.
             | Accept reply =>
               match f3 with
               | Some e => Raises e
-              | None => Accept reply
+              | None =>
+                if chk_m4 k
+                then match pairing_data k p pd4 with
+                     | inr e => Raises e
+                     | inl _ => Accept reply
+                     end
+                else Accept reply
               end
             end
           end
@@ -170,8 +180,8 @@ Section Verify.
     end.
 
   (* the encrypted data of the third message, if one is sent *)
-  Definition m3_sent (p : proto) (h : handler) (c : creds) (f1 : option exn) (pd : bytes) : option bytes :=
-    match verify_credentials p h c f1 pd None with
+  Definition m3_sent (k : pcfg) (p : proto) (h : handler) (c : creds) (f1 : option exn) (pd : bytes) : option bytes :=
+    match verify_credentials {| chk_error := chk_error k; chk_m4 := false |} p h c f1 pd None [] with
     | Accept reply => Some reply
     | Raises _ => None
     end.
@@ -258,9 +268,9 @@ Section Connect.
   Variable sig_ok : bytes -> bytes -> bytes -> bool.
   Variable sign : bytes -> bytes -> option bytes.
 
-  Definition connect (p : proto) (h : handler) (c : creds)
-             (f1 : option exn) (pd : bytes) (f3 : option exn) : conn :=
-    match verify_credentials x25519 hkdf dec enc pk_load sig_ok sign p h c f1 pd f3 with
+  Definition connect (k : pcfg) (p : proto) (h : handler) (c : creds)
+             (f1 : option exn) (pd : bytes) (f3 : option exn) (pd4 : bytes) : conn :=
+    match verify_credentials x25519 hkdf dec enc pk_load sig_ok sign k p h c f1 pd f3 pd4 with
     | Accept _ => {| raised := None; keys := true |}
     | Raises e => {| raised := Some (surface p e); keys := false |}
     end.
@@ -314,21 +324,21 @@ Definition pobs := (proto * option exn * option bytes * option (option exn * boo
 Definition raised_of (o : outcome) : option exn :=
   match o with Accept _ => None | Raises e => Some e end.
 
-Definition check_pobs T h c f1 pd f3 (o : pobs) : bool :=
+Definition check_pobs (cfg : proto -> pcfg) T h c f1 pd f3 pd4 (o : pobs) : bool :=
   let '(p, raw, m3, top) := o in
-  opt_beq exn_beq (raised_of (t_verify_credentials T p h c f1 pd f3)) raw
-  && opt_beq bytes_beq (m3_sent (o_x T) (o_hkdf T) (o_dec T) (o_enc T) (o_pk T) (o_sig T) (o_sign T) p h c f1 pd) m3
+  opt_beq exn_beq (raised_of (t_verify_credentials T (cfg p) p h c f1 pd f3 pd4)) raw
+  && opt_beq bytes_beq (m3_sent (o_x T) (o_hkdf T) (o_dec T) (o_enc T) (o_pk T) (o_sig T) (o_sign T) (cfg p) p h c f1 pd) m3
   && match top with
      | None => true
      | Some (surf, k) =>
-       opt_beq exn_beq (raised (t_connect T p h c f1 pd f3)) surf
-       && Bool.eqb (keys (t_connect T p h c f1 pd f3)) k
+       opt_beq exn_beq (raised (t_connect T (cfg p) p h c f1 pd f3 pd4)) surf
+       && Bool.eqb (keys (t_connect T (cfg p) p h c f1 pd f3 pd4)) k
      end.
 
-(* one case: handler, credentials, tables, transport faults, pairing data of the answer, the
+(* one case: handler, credentials, tables, transport faults, pairing data of the two answers, the
    observation of a direct verify1 call on the two fields (when the harness found both), and
-   the observations of the protocol runs *)
-Definition pcase := (handler * creds * tables * option exn * bytes * option exn * option outcome * list pobs)%type.
+   the observations of the protocol runs.  [cfg] comes from Gen.v. *)
+Definition pcase := (handler * creds * tables * option exn * bytes * option exn * bytes * option outcome * list pobs)%type.
 
 Definition check_v1 T h c (pd : bytes) (v : option outcome) : bool :=
   match v with
@@ -344,6 +354,6 @@ Definition check_v1 T h c (pd : bytes) (v : option outcome) : bool :=
     end
   end.
 
-Definition check_case (x : pcase) : bool :=
-  let '(h, c, T, f1, pd, f3, v, obs) := x in
-  check_v1 T h c pd v && forallb (check_pobs T h c f1 pd f3) obs.
+Definition check_case (cfg : proto -> pcfg) (x : pcase) : bool :=
+  let '(h, c, T, f1, pd, f3, pd4, v, obs) := x in
+  check_v1 T h c pd v && forallb (check_pobs cfg T h c f1 pd f3 pd4) obs.
